@@ -74,14 +74,14 @@ theorem startTyS_stop : ∀ t : TokType, startTyS t = true → ambiguousOp t = f
 
 theorem stmtToks1_head {n : Node} {rest : NList} (ib first : Bool) (hf : fragStmt c ap ib first n rest = true) :
     ∃ x r, stmtToks1 c ap ib first n = x :: r ∧ startTyS x.type = true ∧
-      (first = false → x.hadWs = true ∧ ambiguousOp x.type = false) := by
+      (first = false → (isOpener x.type → x.hadWs = true) ∧ ambiguousOp x.type = false) := by
   cases hr : isRet n
   · rw [fragStmt_expr hr] at hf
     simp only [Bool.and_eq_true, Bool.or_eq_true, Bool.not_eq_true'] at hf
     rw [stmtToks1_expr hr]
     by_cases hc : (c && !first && startsAmbiguous (exprToks c ap prioLOWEST (!first || (ib && !c)) n)) = true
     · rw [if_pos hc]
-      exact ⟨lparen true, _, rfl, by decide, fun _ => ⟨rfl, by decide⟩⟩
+      exact ⟨lparen true, _, rfl, by decide, fun _ => ⟨fun _ => rfl, by decide⟩⟩
     · rw [if_neg hc]
       obtain ⟨x, r, hx, h1, h2⟩ := head_node n hf.1 prioLOWEST (!first || (ib && !c))
       refine ⟨x, r, hx, by simp [startTyS, h1], fun hfirst => ?_⟩
@@ -100,7 +100,7 @@ theorem stmtToks1_head {n : Node} {rest : NList} (ib first : Bool) (hf : fragStm
     simp only [fragStmt, Bool.and_eq_true, beq_iff_eq] at hf
     refine ⟨tk t (!first || (ib && !c)), _, rfl, by simp [tk, hf.1, startTyS], fun hfirst => ?_⟩
     subst hfirst
-    exact ⟨by simp [tk], by simp [tk, hf.1]; decide⟩
+    exact ⟨fun _ => by simp [tk], by simp [tk, hf.1]; decide⟩
 
 /-- one statement of a statement list, parsed by `parseStatement` -/
 theorem stmt1_parse {n : Node} {rest : NList} (ib first : Bool) (hf : fragStmt c ap ib first n rest = true) (hp : StmtP s c ap n)
@@ -172,7 +172,7 @@ theorem stmt1_parse {n : Node} {rest : NList} (ib first : Bool) (hf : fragStmt c
 
 /-- the token after a statement: the closing token of the list, or the first token of a statement that does not continue the previous one -/
 def FollowOK (endTok y : Tok) : Prop :=
-  y = endTok ∨ (startTyS y.type = true ∧ y.hadWs = true ∧ ambiguousOp y.type = false)
+  y = endTok ∨ (startTyS y.type = true ∧ (isOpener y.type → y.hadWs = true) ∧ ambiguousOp y.type = false)
 
 theorem followOK_stop {endTok y : Tok} {j : Nat} (hend : endTok = eofTok ∨ endTok = rbrace) (hy : FollowOK endTok y)
     (h : key (s.get j) = key y) : Stop prioLOWEST (s.get j) ∧ (s.get j).type ≠ .SEMICOLON := by
@@ -190,8 +190,8 @@ theorem followOK_stop {endTok y : Tok} {j : Nat} (hend : endTok = eofTok ∨ end
     refine ⟨⟨hf.2.2.2.2.1, hs.1, hs.2.1, ?_⟩, hf.2.2.2.1⟩
     rcases hs.2.2 with hp | hp | hp
     · exact Or.inl hp
-    · exact Or.inr ⟨Or.inl hp, by rw [key_ws h (Or.inl (by rw [← hty]; exact hp))]; exact h2⟩
-    · exact Or.inr ⟨Or.inr hp, by rw [key_ws h (Or.inr (by rw [← hty]; exact hp))]; exact h2⟩
+    · exact Or.inr ⟨Or.inl hp, by rw [key_ws h (Or.inl (by rw [← hty]; exact hp))]; exact h2 (Or.inl (by rw [← hty]; exact hp))⟩
+    · exact Or.inr ⟨Or.inr hp, by rw [key_ws h (Or.inr (by rw [← hty]; exact hp))]; exact h2 (Or.inr (by rw [← hty]; exact hp))⟩
 
 /-- what follows a statement in the rendering of a statement list -/
 theorem stmts_follow (endTok : Tok) (ib : Bool) : ∀ (more : NList), fragS c ap ib false more = true →
@@ -407,6 +407,399 @@ theorem gp_func {t : Tk} {name : Option Tk} {params l : NList} {variadic : Bool}
         (by simp only [advance_stAt]; exact (ha f hf').1) (by simp only [stAt_peek]; exact hlb)
         (by simp only [advance_stAt]; exact (ha f hf').2) rfl, stAt_cur, stAt_peek, seg_tk hseg.1, seg_tk hseg.2.1]
 
+theorem paramsOK_of_all {params : NList} (h : params.all isParam = true) : paramsOK (lastDotDot false params) params = true := by
+  simp [paramsOK, h]
+
+theorem gp_macro {t : Tk} {params l : NList} (ht : t.type = .MACRO) (hpar : params.all isParam = true)
+    (hfl : fragS c ap true true l = true) (hpl : SPL s c ap l) : GP s c ap (.macroLit t params (some l)) := by
+  intro ws q P i j res hc hseg hj hstop
+  simp only [exprToks, blockToks, List.cons_append, List.append_assoc, List.length_cons, List.length_append, List.length_nil] at hseg hj
+  rw [Seg_cons, Seg_cons] at hseg
+  have hty : (s.get i).type = .MACRO := by rw [seg_type hseg.1]; exact ht
+  have hlp : (s.get (i + 1)).type = .LPAREN := seg_type hseg.2.1
+  obtain ⟨kr, hkr⟩ : ∃ kr, kr = i + 1 + 1 + (listToks c ap q false params).length := ⟨_, rfl⟩
+  have hseg2 := hseg.2.2
+  rw [show listToks c ap q false params ++ rparen :: lbrace :: (stmtsToks c ap true true l ++ [rbrace])
+      = (listToks c ap q false params ++ [rparen]) ++ (lbrace :: stmtsToks c ap true true l ++ [rbrace]) by simp, Seg_append] at hseg2
+  simp only [List.length_append, List.length_cons, List.length_nil] at hseg2
+  have hp1 := params_parse q params _ (i + 1) kr (paramsOK_of_all hpar) hseg2.1 (by omega)
+  have hsegb : Seg s (kr + 1) (lbrace :: stmtsToks c ap true true l ++ [rbrace]) := by
+    have := hseg2.2; rwa [show i + 1 + 1 + ((listToks c ap q false params).length + (0 + 1)) = kr + 1 by omega] at this
+  have hlb : (s.get (kr + 1)).type = .LBRACE := by
+    rw [List.cons_append, Seg_cons] at hsegb; exact seg_type hsegb.1
+  have hb := block_parse l (kr + 1) hfl hpl hsegb
+  have hjj : kr + 1 + 1 + (stmtsToks c ap true true l).length = j := by omega
+  rw [hjj] at hb
+  refine Ev.step2 0 3 (fun F _ ha hb' f hf' => ?_) (hp1.and hb)
+  rw [pE_step (s := s) (st := stAt s i) (fn := .parseMacroLiteral) (l := some (.macroLit t params (some l)))
+    (st1 := stAt s j) (by simp only [stAt_cur, hty]; decide) (by simp only [stAt_cur, hty]; decide) ?_ (by simpa using hstop.1)]
+  · exact hb' _ (by omega)
+  · rw [pd_macro, parseMacroLiteral_ok (st1 := stAt s kr) (st2 := stAt s j) (params := params) (body := some l)
+      (by simp only [stAt_peek]; exact hlp) (by simp only [advance_stAt]; exact (ha f hf').1) (by simp only [stAt_peek]; exact hlb)
+      (by simp only [advance_stAt]; exact (ha f hf').2) rfl, stAt_cur, seg_tk hseg.1]
+
+/-! ### map literals -/
+
+def colonTk : Tk := ⟨.COLON, [58]⟩
+
+/-- the key/value pairs of a map literal: nodes of the fragment with the round-trip property -/
+def MPL (s : TokStream) (c ap : Bool) : NList → Prop
+  | [] => True
+  | some k :: some v :: rest => fragN c ap k = true ∧ fragN c ap v = true ∧ GP s c ap k ∧ GP s c ap v ∧ MPL s c ap rest
+  | _ => False
+
+/-- what remains of the pairs after the `{` or a `,`; `w`: whitespace in front of the first key -/
+def pairsRem (c ap : Bool) : Bool → NList → List Tok
+  | w, k :: v :: rest =>
+    exprToksO c ap 4 w k ++ tk colonTk false :: exprToksO c ap 5 false v ++
+      (if rest.isEmpty then [] else comma :: pairsRem c ap (!c) rest)
+  | _, _ => []
+
+theorem pairsToks_true : ∀ (kvs : NList), MPL s c ap kvs →
+    pairsToks c ap true kvs = (if kvs.isEmpty then [] else comma :: pairsRem c ap (!c) kvs) ∧
+    pairsToks c ap false kvs = pairsRem c ap false kvs
+  | [], _ => ⟨rfl, rfl⟩
+  | [_], h => by cases ‹Option Node› <;> exact absurd h (by simp [MPL])
+  | some k :: some v :: rest, h => by
+    have ih := pairsToks_true rest h.2.2.2.2
+    have e4 : precOf TokType.COLON = 4 := by decide
+    constructor
+    · simp only [pairsToks, pairsRem, ih.1, if_true, Bool.true_and, List.isEmpty_cons, Bool.false_eq_true, if_false, e4, List.cons_append,
+        List.nil_append]
+      rfl
+    · simp only [pairsToks, pairsRem, ih.1, Bool.false_eq_true, if_false, Bool.false_and, e4, List.nil_append]
+      rfl
+  | none :: _ :: _, h => absurd h (by simp [MPL])
+  | some _ :: none :: _, h => absurd h (by simp [MPL])
+
+/-- one `key: value` pair, parsed as the binary expression `key : value` -/
+theorem map_pair {k v : Node} (hk : GP s c ap k) (hv : GP s c ap v) (hfk : fragN c ap k = true) (hfv : fragN c ap v = true)
+    (w : Bool) (i j : Nat)
+    (hseg : Seg s i (exprToks c ap 4 w k ++ tk colonTk false :: exprToks c ap 5 false v))
+    (hj : j + 1 = i + (exprToks c ap 4 w k).length + 1 + (exprToks c ap 5 false v).length)
+    (hstop : Stop prioLOWEST (s.get (j + 1))) :
+    Ev (fun f => parseExpression s f prioLOWEST (stAt s i) = .ok (some (.infix colonTk (some k) (some v)), stAt s j)) :=
+  infix_body (t := colonTk) hk hv hfk hfv (by decide) w false false prioLOWEST prioLOWEST i j _ (by decide) (Compat_low (Nat.le_refl _))
+    hseg hj hstop (ev_loop_stop hstop)
+
+theorem stop_comma_rbrace {j : Nat} (h : (s.get j).type = .COMMA ∨ (s.get j).type = .RBRACE) : Stop prioLOWEST (s.get j) := by
+  rcases h with h | h <;>
+    exact Stop_of_type (by rw [h]; decide) (by rw [h]; decide) (by rw [h]; decide) (by rw [h]; decide)
+
+/-- the loop of `parseMapLiteral`, from the `{` or `,` at `k` -/
+theorem map_loop (tok : Tk) : ∀ (kvs acc : NList) (w : Bool) (k : Nat), MPL s c ap kvs →
+    Seg s (k + 1) (pairsRem c ap w kvs ++ [rbrace]) →
+    Ev (fun f => parseMapLoop s f tok acc (stAt s k) =
+      .ok (some (.mapLit tok (acc ++ kvs)), stAt s (k + 1 + (pairsRem c ap w kvs).length)))
+  | [], acc, w, k, _, hseg => by
+    simp only [pairsRem, List.nil_append, Seg_cons, Seg_nil, and_true, List.length_nil, Nat.add_zero, List.append_nil] at hseg ⊢
+    have hty : (s.get (k + 1)).type = .RBRACE := seg_type hseg
+    refine ⟨1, fun f hf => ?_⟩
+    obtain ⟨g, rfl⟩ : ∃ g, f = g + 1 := ⟨f - 1, by omega⟩
+    rw [parseMapLoop_close (by simp only [stAt_peek]; exact hty), advance_stAt]
+  | [_], _, _, _, h, _ => by cases ‹Option Node› <;> exact absurd h (by simp [MPL])
+  | none :: _ :: _, _, _, _, h, _ => absurd h (by simp [MPL])
+  | some _ :: none :: _, _, _, _, h, _ => absurd h (by simp [MPL])
+  | some kn :: some vn :: rest, acc, w, k, h, hseg => by
+    obtain ⟨hfk, hfv, hk, hv, hrest⟩ := h
+    simp only [pairsRem, exprToksO, List.append_assoc, List.cons_append, List.length_append, List.length_cons] at hseg ⊢
+    have hK := (head_node kn hfk 4 w).length_pos
+    have hV := (head_node vn hfv 5 false).length_pos
+    have hstartK : startTy (s.get (k + 1)).type = true := by
+      rw [Seg_append] at hseg; exact (head_node kn hfk 4 w).seg_start hseg.1
+    obtain ⟨jv, hjv⟩ : ∃ jv, jv + 1 = k + 1 + (exprToks c ap 4 w kn).length + 1 + (exprToks c ap 5 false vn).length :=
+      ⟨k + (exprToks c ap 4 w kn).length + 1 + (exprToks c ap 5 false vn).length, by omega⟩
+    have hsplit : Seg s (k + 1) ((exprToks c ap 4 w kn ++ tk colonTk false :: exprToks c ap 5 false vn) ++
+        ((if rest.isEmpty then [] else comma :: pairsRem c ap (!c) rest) ++ [rbrace])) := by simpa using hseg
+    rw [Seg_append] at hsplit
+    simp only [List.length_append, List.length_cons] at hsplit
+    have hnext : Seg s (jv + 1) ((if rest.isEmpty then [] else comma :: pairsRem c ap (!c) rest) ++ [rbrace]) := by
+      have := hsplit.2
+      rwa [show k + 1 + ((exprToks c ap 4 w kn).length + ((exprToks c ap 5 false vn).length + 1)) = jv + 1 by omega] at this
+    cases rest with
+    | nil =>
+      simp only [List.isEmpty_nil, if_true, List.nil_append, Seg_cons, Seg_nil, and_true, List.length_nil, Nat.add_zero] at hnext ⊢
+      have hrb : (s.get (jv + 1)).type = .RBRACE := seg_type hnext
+      have hp := map_pair hk hv hfk hfv w (k + 1) jv hsplit.1 (by omega) (stop_comma_rbrace (Or.inr hrb))
+      refine Ev.step 1 2 (fun F hF1 ha f hf => ?_) hp
+      rw [parseMapLoop_last (st1 := stAt s jv) (t := colonTk) (k := kn) (v := some vn)
+        (by simp only [stAt_peek]; exact (startTy_facts _ hstartK).2.2.2.2.2.2.2.2) rfl
+        (by simp only [advance_stAt]; exact ha (f + 1) (by omega)) rfl (by simp only [stAt_peek]; exact hrb)]
+      obtain ⟨g, rfl⟩ : ∃ g, f = g + 1 := ⟨f - 1, by omega⟩
+      rw [parseMapLoop_close (by simp only [stAt_peek]; exact hrb), advance_stAt]
+      have : jv + 1 = k + 1 + ((exprToks c ap 4 w kn).length + ((exprToks c ap 5 false vn).length + 1 + 0)) := by omega
+      rw [this]
+    | cons x xs =>
+      simp only [List.isEmpty_cons, Bool.false_eq_true, if_false, List.cons_append, Seg_cons] at hnext
+      have hcm : (s.get (jv + 1)).type = .COMMA := seg_type hnext.1
+      have hp := map_pair hk hv hfk hfv w (k + 1) jv hsplit.1 (by omega) (stop_comma_rbrace (Or.inl hcm))
+      have ih := map_loop tok (x :: xs) (acc ++ [some kn, some vn]) (!c) (jv + 1) hrest hnext.2
+      refine Ev.step2 0 1 (fun F _ ha hb f hf => ?_) hp ih
+      rw [parseMapLoop_comma (st1 := stAt s jv) (t := colonTk) (k := kn) (v := some vn)
+        (by simp only [stAt_peek]; exact (startTy_facts _ hstartK).2.2.2.2.2.2.2.2) rfl
+        (by simp only [advance_stAt]; exact ha f hf) rfl (by simp only [stAt_peek]; exact hcm), advance_stAt, hb f hf]
+      simp only [List.isEmpty_cons, Bool.false_eq_true, if_false, List.length_cons, List.append_assoc, List.cons_append, List.nil_append]
+      refine congrArg (fun n => Res.ok (some (Node.mapLit tok (acc ++ some kn :: some vn :: x :: xs)), stAt s n)) ?_
+      omega
+
+theorem gp_map {kvs : NList} (h : MPL s c ap kvs) : GP s c ap (.mapLit ⟨.LBRACE, [123]⟩ kvs) := by
+  intro ws q P i j res hc hseg hj hstop
+  simp only [exprToks, (pairsToks_true kvs h).2, List.cons_append, List.length_cons, List.length_append, List.length_nil] at hseg hj
+  rw [Seg_cons] at hseg
+  have hty : (s.get i).type = .LBRACE := seg_type hseg.1
+  have h1 := map_loop ⟨.LBRACE, [123]⟩ kvs [] false i h hseg.2
+  have hjj : i + 1 + (pairsRem c ap false kvs).length = j := by omega
+  rw [hjj] at h1
+  refine Ev.step2 0 3 (fun F _ ha hb f hf => ?_) h1
+  rw [pE_step (s := s) (st := stAt s i) (fn := .parseMapLiteral) (l := some (.mapLit ⟨.LBRACE, [123]⟩ kvs)) (st1 := stAt s j)
+    (by simp only [stAt_cur, hty]; decide) (by simp only [stAt_cur, hty]; decide) ?_ (by simpa using hstop.1)]
+  · exact hb _ (by omega)
+  · rw [pd_map, parseMapLiteral_eq, stAt_cur, key_tk hseg.1]
+    exact ha f hf
+
+/-! ### lambdas -/
+
+def lamTk : Tk := ⟨.LAMBDA, [61, 62]⟩
+
+theorem lambdaParamsOK_elim {variadic : Bool} {params : NList} (h : lambdaParamsOK variadic params = true) :
+    (∀ x ∈ params, isParam x = true) ∧ ∃ t, okParamList params = some (t, true) ∧ t.isSome = variadic := by
+  simp only [lambdaParamsOK, Bool.and_eq_true, List.all_eq_true] at h
+  refine ⟨h.1, ?_⟩
+  have h2 := h.2
+  cases hk : okParamList params with
+  | none => rw [hk] at h2; cases h2
+  | some r =>
+    obtain ⟨t, b⟩ := r
+    rw [hk] at h2
+    cases b with
+    | false => cases h2
+    | true => exact ⟨t, rfl, by simpa using h2⟩
+
+/-- the `=> { … }` part: `parseLambdaMulti` from the `=>` at `kl` -/
+theorem lambda_tail_some {p : Node} {more l : NList} {t : Option Tk} (hok : okParamList (some p :: more) = some (t, true))
+    (hfl : fragS c ap true true l = true) (hpl : SPL s c ap l) (kl : Nat)
+    (hseg : Seg s kl (sym .LAMBDA [61, 62] (!c) :: (lbrace :: stmtsToks c ap true true l ++ [rbrace]))) :
+    Ev (fun f => parseLambdaMulti s f (some p) more (stAt s kl) =
+      .ok (some (.func lamTk none (some p :: more) (some l) t.isSome true), stAt s (kl + 1 + 1 + (stmtsToks c ap true true l).length))) := by
+  rw [Seg_cons] at hseg
+  have hb := block_parse l (kl + 1) hfl hpl hseg.2
+  have hlb : (s.get (kl + 1)).type = .LBRACE := by have := hseg.2; rw [List.cons_append, Seg_cons] at this; exact seg_type this.1
+  refine Ev.step 0 1 (fun F _ ha f hf => ?_) hb
+  rw [parseLambdaMulti_some (st2 := stAt s (kl + 1 + 1 + (stmtsToks c ap true true l).length)) (body := some l) hok
+    (by simp only [stAt_peek]; exact hlb) (by simp only [advance_stAt]; exact ha f hf) rfl, stAt_cur, key_tk hseg.1]
+  rfl
+
+theorem lambda_tail_none {l : NList} (hfl : fragS c ap true true l = true) (hpl : SPL s c ap l) (kl : Nat)
+    (hseg : Seg s kl (sym .LAMBDA [61, 62] (!c) :: (lbrace :: stmtsToks c ap true true l ++ [rbrace]))) :
+    Ev (fun f => parseLambdaMulti s f none [] (stAt s kl) =
+      .ok (some (.func lamTk none [] (some l) false true), stAt s (kl + 1 + 1 + (stmtsToks c ap true true l).length))) := by
+  rw [Seg_cons] at hseg
+  have hb := block_parse l (kl + 1) hfl hpl hseg.2
+  have hlb : (s.get (kl + 1)).type = .LBRACE := by have := hseg.2; rw [List.cons_append, Seg_cons] at this; exact seg_type this.1
+  refine Ev.step 0 1 (fun F _ ha f hf => ?_) hb
+  rw [parseLambdaMulti_none (st2 := stAt s (kl + 1 + 1 + (stmtsToks c ap true true l).length)) (body := some l) (t := none) rfl
+    (by simp only [stAt_peek]; exact hlb) (by simp only [advance_stAt]; exact ha f hf) rfl, stAt_cur, key_tk hseg.1]
+  rfl
+
+/-- `x => { … }` without outer parentheses, at a level up to LAMBDA -/
+theorem lambda1 {x : Tk} {l : NList} {t : Option Tk} (hx : x.type = .IDENT ∨ x.type = .DOTDOT)
+    (hok : okParamList [some (.ident x)] = some (t, true))
+    (hfl : fragS c ap true true l = true) (hpl : SPL s c ap l) (P i j : Nat) (res : ONode × PState) (hP : P ≤ 5)
+    (hseg : Seg s i (tk x false :: sym .LAMBDA [61, 62] (!c) :: (lbrace :: stmtsToks c ap true true l ++ [rbrace])))
+    (hj : j = i + 1 + 1 + 1 + (stmtsToks c ap true true l).length) (hstop : Stop 5 (s.get (j + 1))) :
+    Ev (fun f => parseExpressionLoop s f P (some (.func lamTk none [some (.ident x)] (some l) t.isSome true)) (stAt s j) = .ok res) →
+    Ev (fun f => parseExpression s f P (stAt s i) = .ok res) := by
+  rw [Seg_cons] at hseg
+  have hty : (s.get i).type = x.type := seg_type hseg.1
+  have hlam : (s.get (i + 1)).type = .LAMBDA := by have := hseg.2; rw [Seg_cons] at this; exact seg_type this.1
+  have htail := lambda_tail_some (p := .ident x) (more := []) hok hfl hpl (i + 1) hseg.2
+  rw [show i + 1 + 1 + 1 + (stmtsToks c ap true true l).length = j by omega] at htail
+  have hpre : ∀ g, prefixDispatch s (g + 1) .parseIdentifier (stAt s i) = .ok (some (.ident x), stAt s i) := fun g => by
+    rw [pd_ident, parseIdentifier_ok (by simp only [stAt_peek, hlam]; decide), stAt_cur, seg_tk hseg.1]
+  have hne : (s.get i).type ≠ .EOL := by rw [hty]; rcases hx with h | h <;> rw [h] <;> decide
+  have hreg : lookup prefixRegs (s.get i).type = some .parseIdentifier := by rw [hty]; rcases hx with h | h <;> rw [h] <;> decide
+  intro hres
+  by_cases h5 : P = 5
+  · subst h5
+    -- the lambda is built directly; the loop at level LAMBDA then stops
+    obtain ⟨F2, hF2⟩ := hres
+    have hr : res = (some (.func lamTk none [some (.ident x)] (some l) t.isSome true), stAt s j) := by
+      have := hF2 (F2 + 1) (by omega)
+      simp only [] at this
+      rw [loop_stop_of_Stop (by simp only [stAt_peek]; exact hstop)] at this
+      exact (Res.ok.inj this).symm
+    subst hr
+    refine Ev.step 0 2 (fun F _ ha f hf => ?_) htail
+    rw [show (5 : Nat) = prioLAMBDA from rfl, pE_lambda5 (s := s) (st := stAt s i) (fn := .parseIdentifier) (st1 := stAt s i)
+      (by simp only [stAt_cur]; exact hne) (by simp only [stAt_cur]; exact hreg) (hpre f) (by simp only [stAt_peek]; exact hlam),
+      advance_stAt]
+    exact ha (f + 1) (by omega)
+  · refine Ev.step2 0 4 (fun F _ ha hb f hf => ?_) htail hres
+    rw [pE_step' (s := s) (st := stAt s i) (fn := .parseIdentifier) (st1 := stAt s i)
+      (by simp only [stAt_cur]; exact hne) (by simp only [stAt_cur]; exact hreg) (hpre (f + 2)) (fun h => h5 h.2),
+      loop_step (s := s) (st := stAt s i) (fn := .parseLambdaExpression) (st1 := stAt s j)
+        (l' := some (.func lamTk none [some (.ident x)] (some l) t.isSome true))
+        (by simp only [stAt_peek, hlam]; decide) (by simp only [stAt_peek, hlam]; show P < 5; omega)
+        (by simp only [stAt_peek, hlam]; decide) (by simp only [stAt_peek, hlam]; simp) (by simp only [stAt_peek, hlam]; simp) ?_]
+    · exact hb _ (by omega)
+    · rw [id_lambda, advance_stAt]; exact ha (f + 1) (by omega)
+
+/-- `() => { … }`, at any level -/
+theorem lambda0 {l : NList} (hfl : fragS c ap true true l = true) (hpl : SPL s c ap l) (w : Bool) (P i j : Nat) (res : ONode × PState)
+    (hseg : Seg s i (lparen w :: rparen :: sym .LAMBDA [61, 62] (!c) :: (lbrace :: stmtsToks c ap true true l ++ [rbrace])))
+    (hj : j = i + 1 + 1 + 1 + 1 + (stmtsToks c ap true true l).length) (hfollow : (s.get (j + 1)).type ≠ .LAMBDA) :
+    Ev (fun f => parseExpressionLoop s f P (some (.func lamTk none [] (some l) false true)) (stAt s j) = .ok res) →
+    Ev (fun f => parseExpression s f P (stAt s i) = .ok res) := by
+  rw [Seg_cons, Seg_cons] at hseg
+  have hlp : (s.get i).type = .LPAREN := seg_type hseg.1
+  have hrp : (s.get (i + 1)).type = .RPAREN := seg_type hseg.2.1
+  have hlam : (s.get (i + 1 + 1)).type = .LAMBDA := by have := hseg.2.2; rw [Seg_cons] at this; exact seg_type this.1
+  have htail := lambda_tail_none hfl hpl (i + 1 + 1) hseg.2.2
+  rw [show i + 1 + 1 + 1 + 1 + (stmtsToks c ap true true l).length = j by omega] at htail
+  refine Ev.step2 0 4 (fun F _ ha hb f hf => ?_) htail
+  rw [pE_step (s := s) (st := stAt s i) (fn := .parseGroupedExpression) (st1 := stAt s j)
+    (l := some (.func lamTk none [] (some l) false true))
+    (by simp only [stAt_cur, hlp]; decide) (by simp only [stAt_cur, hlp]; decide) ?_ (by simp only [stAt_peek]; exact hfollow)]
+  · exact hb _ (by omega)
+  · rw [pd_grp, parseGroupedExpression_lambda0 (st1 := stAt s (i + 1)) (e := none)
+      (by rw [advance_stAt, pE_empty_parens (by simp only [stAt_cur, hrp]; decide) (by simp only [stAt_cur, hrp]; decide)
+            (by simp only [stAt_peek]; exact hlam)])
+      (by simp only [stAt_peek]; exact hlam), advance_stAt]
+    exact ha (f + 1) (by omega)
+
+theorem key_tk_ws {t : Tk} (w w' : Bool) (h1 : t.type ≠ .LPAREN) (h2 : t.type ≠ .LBRACKET) : key (tk t w) = key (tk t w') := by
+  have e1 : (t.type == TokType.LPAREN) = false := by simpa using h1
+  have e2 : (t.type == TokType.LBRACKET) = false := by simpa using h2
+  simp [key, tk, e1, e2]
+
+theorem gpl_params {more : NList} (h : ∀ x ∈ more, isParam x = true) : GPL s c ap more := by
+  intro x hx
+  obtain ⟨t, rfl, ht⟩ := isParam_elim (h x hx)
+  exact ⟨.ident t, rfl, by simp only [fragN, Bool.or_eq_true, beq_iff_eq]; exact ht, (gpa_ident t ht).gp⟩
+
+/-- `(p1, p2, …) => { … }`, at any level -/
+theorem lambdaN {p1 : Tk} {m1 : ONode} {more l : NList} {t : Option Tk} (q : Nat) (hq : 1 ≤ q)
+    (hp1 : p1.type = .IDENT ∨ p1.type = .DOTDOT) (hmore : ∀ x ∈ m1 :: more, isParam x = true)
+    (hok : okParamList (some (.ident p1) :: m1 :: more) = some (t, true))
+    (hfl : fragS c ap true true l = true) (hpl : SPL s c ap l) (w : Bool) (P i j : Nat) (res : ONode × PState)
+    (hseg : Seg s i (lparen w :: (listToks c ap q false (some (.ident p1) :: m1 :: more) ++ [rparen]) ++
+      sym .LAMBDA [61, 62] (!c) :: (lbrace :: stmtsToks c ap true true l ++ [rbrace])))
+    (hj : j = i + 1 + (listToks c ap q false (some (.ident p1) :: m1 :: more)).length + 1 + 1 + 1 + (stmtsToks c ap true true l).length)
+    (hfollow : (s.get (j + 1)).type ≠ .LAMBDA) :
+    Ev (fun f => parseExpressionLoop s f P (some (.func lamTk none (some (.ident p1) :: m1 :: more) (some l) t.isSome true)) (stAt s j) = .ok res) →
+    Ev (fun f => parseExpression s f P (stAt s i) = .ok res) := by
+  obtain ⟨t2, rfl, ht2⟩ := isParam_elim (hmore m1 (List.mem_cons_self ..))
+  simp only [listToks, Bool.false_eq_true, if_false, if_true, exprToksO, exprToks, Bool.false_and, Bool.true_and, List.nil_append,
+    List.cons_append, List.append_assoc, List.length_cons, List.length_append, List.length_nil] at hseg hj
+  rw [Seg_cons, Seg_cons, Seg_cons, Seg_cons] at hseg
+  have hlp : (s.get i).type = .LPAREN := seg_type hseg.1
+  have hid : (s.get (i + 1)).type = p1.type := seg_type hseg.2.1
+  have hcm : (s.get (i + 1 + 1)).type = .COMMA := seg_type hseg.2.2.1
+  -- the parameters after the first comma, as an expression list
+  have hlist : Seg s (i + 1 + 1 + 1) ((listToks c ap q false (some (.ident t2) :: more) ++ [rparen]) ++
+      (sym .LAMBDA [61, 62] (!c) :: (lbrace :: stmtsToks c ap true true l ++ [rbrace]))) := by
+    simp only [listToks, Bool.false_eq_true, if_false, exprToksO, exprToks, Bool.false_and, List.nil_append, List.cons_append, List.append_assoc]
+    rw [Seg_cons]
+    refine ⟨?_, hseg.2.2.2.2⟩
+    rw [hseg.2.2.2.1]
+    exact key_tk_ws _ _ (by rcases ht2 with h | h <;> rw [h] <;> decide) (by rcases ht2 with h | h <;> rw [h] <;> decide)
+  rw [Seg_append] at hlist
+  obtain ⟨kr, hkr⟩ : ∃ kr, kr = i + 1 + 1 + 1 + (listToks c ap q false (some (.ident t2) :: more)).length := ⟨_, rfl⟩
+  have hl2 := list_parse c ap q hq rparen (Or.inl rfl) (some (.ident t2) :: more) (i + 1 + 1) kr (gpl_params hmore) hlist.1 (by omega)
+  have htl : Seg s (kr + 1) (sym .LAMBDA [61, 62] (!c) :: (lbrace :: stmtsToks c ap true true l ++ [rbrace])) := by
+    have := hlist.2
+    simp only [List.length_append, List.length_cons, List.length_nil] at this
+    rwa [show i + 1 + 1 + 1 + ((listToks c ap q false (some (.ident t2) :: more)).length + (0 + 1)) = kr + 1 by omega] at this
+  have hlam : (s.get (kr + 1)).type = .LAMBDA := by rw [Seg_cons] at htl; exact seg_type htl.1
+  have htail := lambda_tail_some (p := .ident p1) (more := some (.ident t2) :: more) hok hfl hpl (kr + 1) htl
+  have hlen : (listToks c ap q false (some (.ident t2) :: more)).length = 1 + (listToks c ap q true more).length := by
+    simp only [listToks, Bool.false_eq_true, if_false, exprToksO, exprToks, Bool.false_and, List.nil_append, List.cons_append, List.length_cons]
+    omega
+  rw [show kr + 1 + 1 + 1 + (stmtsToks c ap true true l).length = j by omega] at htail
+  -- the first parameter, as an expression in front of the comma
+  have hfirst : Ev (fun f => parseExpression s f prioLOWEST (stAt s (i + 1)) = .ok (some (.ident p1), stAt s (i + 1))) := by
+    have hst : Stop prioLOWEST (s.get (i + 1 + 1)) :=
+      Stop_of_type (by rw [hcm]; decide) (by rw [hcm]; decide) (by rw [hcm]; decide) (by rw [hcm]; decide)
+    exact gpa_ident p1 hp1 c ap false q prioLOWEST (i + 1) (i + 1) _ (by simp only [exprToks, Seg_cons, Seg_nil, and_true]; exact hseg.2.1)
+      (by simp [exprToks]) hst.notCont (ev_loop_stop hst)
+  refine Ev.step2 0 4 (fun F _ ha hb f hf => ?_) ((hfirst.and hl2).and htail)
+  rw [pE_step (s := s) (st := stAt s i) (fn := .parseGroupedExpression) (st1 := stAt s j)
+    (l := some (.func lamTk none (some (.ident p1) :: some (.ident t2) :: more) (some l) t.isSome true))
+    (by simp only [stAt_cur, hlp]; decide) (by simp only [stAt_cur, hlp]; decide) ?_ (by simp only [stAt_peek]; exact hfollow)]
+  · exact hb _ (by omega)
+  · rw [pd_grp, parseGroupedExpression_lambdaN (st1 := stAt s (i + 1)) (st2 := stAt s kr) (e := some (.ident p1))
+      (el := some (.ident t2) :: more)
+      (by rw [advance_stAt]; exact (ha (f + 1) (by omega)).1.1) (by simp only [stAt_peek]; exact hcm)
+      (by rw [advance_stAt]; exact (ha (f + 1) (by omega)).1.2) (by simp only [stAt_peek]; exact hlam), advance_stAt]
+    exact (ha (f + 1) (by omega)).2
+
+/-- the parameter list of a lambda as the printer writes it -/
+def lamParams (c ap : Bool) (q : Nat) (w : Bool) (params : NList) : List Tok :=
+  if params.length == 1 then listToks c ap q false params else lparen w :: listToks c ap q false params ++ [rparen]
+
+/-- a lambda without its outer parentheses -/
+theorem lambda_inner {params l : NList} {variadic : Bool} (hpar : lambdaParamsOK variadic params = true)
+    (hfl : fragS c ap true true l = true) (hpl : SPL s c ap l) (q : Nat) (hq : 1 ≤ q) (w : Bool) (P i j : Nat) (res : ONode × PState)
+    (hP : params.length = 1 → P ≤ 5)
+    (hseg : Seg s i (lamParams c ap q w params ++ sym .LAMBDA [61, 62] (!c) :: (lbrace :: stmtsToks c ap true true l ++ [rbrace])))
+    (hj : j + 1 = i + (lamParams c ap q w params ++ sym .LAMBDA [61, 62] (!c) :: (lbrace :: stmtsToks c ap true true l ++ [rbrace])).length)
+    (hstop : Stop 5 (s.get (j + 1))) :
+    Ev (fun f => parseExpressionLoop s f P (some (.func lamTk none params (some l) variadic true)) (stAt s j) = .ok res) →
+    Ev (fun f => parseExpression s f P (stAt s i) = .ok res) := by
+  obtain ⟨hall, t, hok, hv⟩ := lambdaParamsOK_elim hpar
+  subst hv
+  match params, hall, hok, hP, hseg, hj with
+  | [], _, hok, _, hseg, hj =>
+    have : t = none := by simp [okParamList] at hok; exact hok.symm
+    subst this
+    simp only [lamParams, List.length_nil, listToks, List.nil_append, List.cons_append, List.length_cons, List.length_append] at hseg hj
+    exact lambda0 hfl hpl w P i j res (by simpa using hseg) (by simp at hj ⊢; omega) hstop.1
+  | [x], hall, hok, hP, hseg, hj =>
+    obtain ⟨tx, rfl, htx⟩ := isParam_elim (hall x (List.mem_cons_self ..))
+    simp only [lamParams, List.length_cons, List.length_nil, listToks, Bool.false_eq_true, if_false, exprToksO, exprToks, Bool.false_and,
+      List.nil_append, List.cons_append, List.append_nil, List.length_append] at hseg hj
+    exact lambda1 htx hok hfl hpl P i j res (hP rfl) (by simpa using hseg) (by simp at hj ⊢; omega) hstop
+  | x :: m1 :: more, hall, hok, _, hseg, hj =>
+    obtain ⟨tx, rfl, htx⟩ := isParam_elim (hall x (List.mem_cons_self ..))
+    have hne : ((some (Node.ident tx) :: m1 :: more).length == 1) = false := by simp
+    simp only [lamParams, hne, Bool.false_eq_true, if_false] at hseg hj
+    refine lambdaN q hq htx (fun y hy => hall y (List.mem_cons_of_mem _ hy)) hok hfl hpl w P i j res (by simpa using hseg) ?_ hstop.1
+    simp only [List.length_append, List.length_cons, List.length_nil] at hj ⊢
+    omega
+
+theorem lambda_toks (params l : NList) (variadic : Bool) (q : Nat) (ws : Bool) :
+    exprToks c ap q ws (.func lamTk none params (some l) variadic true) =
+      if prioLAMBDA < q then
+        lparen ws :: (lamParams c ap q false params ++ sym .LAMBDA [61, 62] (!c) :: (lbrace :: stmtsToks c ap true true l ++ [rbrace])) ++ [rparen]
+      else lamParams c ap q ws params ++ sym .LAMBDA [61, 62] (!c) :: (lbrace :: stmtsToks c ap true true l ++ [rbrace]) := by
+  simp only [exprToks, if_true, blockToks, lamParams]
+  by_cases ho : prioLAMBDA < q
+  · simp [ho]
+  · simp [ho]
+
+theorem gp_lambda {params l : NList} {variadic : Bool} (hpar : lambdaParamsOK variadic params = true)
+    (hfl : fragS c ap true true l = true) (hpl : SPL s c ap l) : GP s c ap (.func lamTk none params (some l) variadic true) := by
+  intro ws q P i j res hc hseg hj hstop
+  rw [lambda_toks] at hseg hj
+  by_cases ho : prioLAMBDA < q
+  · rw [if_pos ho] at hseg hj
+    rw [List.cons_append, Seg_cons, Seg_append] at hseg
+    simp only [List.length_cons, List.length_append, List.length_nil] at hj
+    obtain ⟨j', rfl⟩ : ∃ j', j = j' + 1 := ⟨j - 1, by omega⟩
+    have hcl : key (s.get (j' + 1)) = key rparen := by
+      have := hseg.2.2; rw [Seg_cons] at this
+      have h2 := this.1
+      simp only [List.length_append, List.length_cons, List.length_nil] at h2
+      rwa [show i + 1 + ((lamParams c ap q false params).length + ((stmtsToks c ap true true l).length + (0 + 1) + 1 + 1)) = j' + 1 by omega] at h2
+    refine grp (t := .func lamTk none params (some l) variadic true) (i := i) (j := j') (fun res' => ?_)
+      (by have := seg_type hseg.1; simpa [lparen, sym] using this) (by have := seg_type hcl; simpa [rparen, sym] using this) hstop.1
+    exact lambda_inner hpar hfl hpl q hc.2.1 false prioLOWEST (i + 1) j' res' (fun _ => by decide) hseg.2.1
+      (by simp only [List.length_append, List.length_cons, List.length_nil]; omega) (stop_rparen hcl (by decide))
+  · rw [if_neg ho] at hseg hj
+    have hq5 : q ≤ 5 := by simp [prioLAMBDA] at ho; omega
+    have hP6 : P < 6 := hc.2.2 .EQ (by decide) (by show q ≤ 6; omega)
+    exact lambda_inner hpar hfl hpl q hc.2.1 ws P i j res (fun _ => by omega) hseg hj (hstop.mono hq5)
+
 /-! ### `for` and `if` -/
 
 /-- the condition and the first block of `for` / `if`: from the keyword at `i`, the condition ends at `jc`, the block's `}` is at `jb` -/
@@ -538,25 +931,40 @@ for an `if`, also on the direct path of `else if`; for a `return`, the property 
 def GPX (s : TokStream) (c ap : Bool) (t : Node) : Prop :=
   (fragN c ap t = true → GP s c ap t) ∧
   (∀ tk' cond cons alt, t = .ifE tk' cond cons alt → fragN c ap t = true → IFP s c ap t) ∧
-  (∀ t' v, t = .ret t' (some v) → fragN c ap v = true → GP s c ap v)
+  (∀ t' v, t = .ret t' (some v) → fragN c ap v = true → GP s c ap v) ∧
+  (∀ tc lc, t = .infix tc (some lc) none → fragN c ap lc = true → GP s c ap lc)
 
 theorem GPX.of_gp {t : Node} (hni : ∀ a b c d, t ≠ .ifE a b c d) (hnr : ∀ a b, t ≠ .ret a (some b))
-    (h : fragN c ap t = true → GP s c ap t) : GPX s c ap t :=
-  ⟨h, fun a b c d e => absurd e (hni a b c d), fun a b e => absurd e (hnr a b)⟩
+    (hno : ∀ a b, t ≠ .infix a (some b) none) (h : fragN c ap t = true → GP s c ap t) : GPX s c ap t :=
+  ⟨h, fun a b c d e => absurd e (hni a b c d), fun a b e => absurd e (hnr a b), fun a b e => absurd e (hno a b)⟩
 
 theorem GPX.of_false {t : Node} (hni : ∀ a b c d, t ≠ .ifE a b c d) (hnr : ∀ a b, t ≠ .ret a (some b))
-    (h : fragN c ap t = false) : GPX s c ap t :=
-  GPX.of_gp hni hnr (fun h' => by rw [h] at h'; cases h')
+    (hno : ∀ a b, t ≠ .infix a (some b) none) (h : fragN c ap t = false) : GPX s c ap t :=
+  GPX.of_gp hni hnr hno (fun h' => by rw [h] at h'; cases h')
 
-theorem GPX.of_false' {t : Node} (hnr : ∀ a b, t ≠ .ret a (some b)) (h : fragN c ap t = false) : GPX s c ap t :=
-  ⟨fun h' => (by rw [h] at h'; cases h'), fun _ _ _ _ _ h' => (by rw [h] at h'; cases h'), fun a b e => absurd e (hnr a b)⟩
+theorem GPX.of_false' {t : Node} (hnr : ∀ a b, t ≠ .ret a (some b)) (hno : ∀ a b, t ≠ .infix a (some b) none)
+    (h : fragN c ap t = false) : GPX s c ap t :=
+  ⟨fun h' => (by rw [h] at h'; cases h'), fun _ _ _ _ _ h' => (by rw [h] at h'; cases h'), fun a b e => absurd e (hnr a b),
+   fun a b e => absurd e (hno a b)⟩
+
+theorem fragIdx_elim {i : Node} (h : fragIdx c ap (some i) = true) :
+    (∃ tc lc, i = .infix tc (some lc) none ∧ tc.type = .COLON ∧ fragN c ap lc = true) ∨ fragN c ap i = true := by
+  cases i with
+  | «infix» tc lc rc =>
+    cases rc with
+    | none =>
+      cases lc with
+      | none => simp [fragIdx, fragO] at h
+      | some l => simp only [fragIdx, fragO, Bool.and_eq_true, beq_iff_eq] at h; exact Or.inl ⟨tc, l, rfl, h.1, h.2⟩
+    | some r => simp only [fragIdx] at h; exact Or.inr h
+  | _ => simp only [fragIdx] at h; exact Or.inr h
 
 theorem stmtP_of_gpx {n : Node} {ib first : Bool} {rest : NList} (hx : GPX s c ap n) (hf : fragStmt c ap ib first n rest = true) :
     StmtP s c ap n := by
   refine ⟨fun t v e => ?_, fun hnr => ?_⟩
   · subst e
     simp only [fragStmt, Bool.and_eq_true] at hf
-    exact hx.2.2 t v rfl hf.2
+    exact hx.2.2.1 t v rfl hf.2
   · rw [fragStmt_expr hnr, Bool.and_eq_true] at hf
     exact hx.1 hf.1
 
@@ -574,79 +982,103 @@ theorem ifE_head (tk' : Tk) (cond : ONode) (cons alt : Stmts) (q : Nat) (ws : Bo
 
 mutual
 theorem gpx_node (s : TokStream) (c ap : Bool) : ∀ (t : Node), GPX s c ap t
-  | .ident t => GPX.of_gp (fun _ _ _ _ e => nomatch e) (fun _ _ e => nomatch e) (fun h => by simp only [fragN, beq_iff_eq] at h; exact (gpa_ident t h).gp)
-  | .strLit t => GPX.of_gp (fun _ _ _ _ e => nomatch e) (fun _ _ e => nomatch e) (fun h => by simp only [fragN, beq_iff_eq] at h; exact (gpa_strLit t h).gp)
-  | .boolean t => GPX.of_gp (fun _ _ _ _ e => nomatch e) (fun _ _ e => nomatch e) (fun h => by simp only [fragN, Bool.or_eq_true, beq_iff_eq] at h; exact (gpa_boolean t h).gp)
-  | .intLit t => GPX.of_gp (fun _ _ _ _ e => nomatch e) (fun _ _ e => nomatch e) (fun h => by simp only [fragN, beq_iff_eq] at h; exact (gpa_intLit t h).gp)
-  | .floatLit t => GPX.of_gp (fun _ _ _ _ e => nomatch e) (fun _ _ e => nomatch e) (fun h => by simp only [fragN, Bool.or_eq_true, beq_iff_eq] at h; exact (gpa_floatLit t h).gp)
-  | .control t => GPX.of_gp (fun _ _ _ _ e => nomatch e) (fun _ _ e => nomatch e) (fun h => by simp only [fragN, Bool.or_eq_true, beq_iff_eq] at h; exact (gpa_control t h).gp)
-  | .post t p => GPX.of_gp (fun _ _ _ _ e => nomatch e) (fun _ _ e => nomatch e) (fun h => by
+  | .ident t => GPX.of_gp (fun _ _ _ _ e => nomatch e) (fun _ _ e => nomatch e) (fun _ _ e => nomatch e) (fun h => by
+      simp only [fragN, Bool.or_eq_true, beq_iff_eq] at h; exact (gpa_ident t h).gp)
+  | .strLit t => GPX.of_gp (fun _ _ _ _ e => nomatch e) (fun _ _ e => nomatch e) (fun _ _ e => nomatch e) (fun h => by simp only [fragN, beq_iff_eq] at h; exact (gpa_strLit t h).gp)
+  | .boolean t => GPX.of_gp (fun _ _ _ _ e => nomatch e) (fun _ _ e => nomatch e) (fun _ _ e => nomatch e) (fun h => by simp only [fragN, Bool.or_eq_true, beq_iff_eq] at h; exact (gpa_boolean t h).gp)
+  | .intLit t => GPX.of_gp (fun _ _ _ _ e => nomatch e) (fun _ _ e => nomatch e) (fun _ _ e => nomatch e) (fun h => by simp only [fragN, beq_iff_eq] at h; exact (gpa_intLit t h).gp)
+  | .floatLit t => GPX.of_gp (fun _ _ _ _ e => nomatch e) (fun _ _ e => nomatch e) (fun _ _ e => nomatch e) (fun h => by simp only [fragN, Bool.or_eq_true, beq_iff_eq] at h; exact (gpa_floatLit t h).gp)
+  | .control t => GPX.of_gp (fun _ _ _ _ e => nomatch e) (fun _ _ e => nomatch e) (fun _ _ e => nomatch e) (fun h => by simp only [fragN, Bool.or_eq_true, beq_iff_eq] at h; exact (gpa_control t h).gp)
+  | .post t p => GPX.of_gp (fun _ _ _ _ e => nomatch e) (fun _ _ e => nomatch e) (fun _ _ e => nomatch e) (fun h => by
       simp only [fragN, Bool.and_eq_true, Bool.or_eq_true, beq_iff_eq] at h; exact (gpa_post t p h.1 h.2).gp)
-  | .comment _ _ _ => GPX.of_false (fun _ _ _ _ e => nomatch e) (fun _ _ e => nomatch e) (by simp [fragN])
-  | .mapLit _ _ => GPX.of_false (fun _ _ _ _ e => nomatch e) (fun _ _ e => nomatch e) (by simp [fragN])
-  | .macroLit _ _ _ => GPX.of_false (fun _ _ _ _ e => nomatch e) (fun _ _ e => nomatch e) (by simp [fragN])
-  | .ret t none => ⟨fun h => by simp [fragN] at h, nofun, nofun⟩
-  | .ret t (some v) => ⟨fun h => by simp [fragN] at h, nofun, fun t' v' e hv => by
-      cases e; exact (gpx_node s c ap v).1 hv⟩
-  | .pre t none => GPX.of_false (fun _ _ _ _ e => nomatch e) (fun _ _ e => nomatch e) (by simp [fragN, fragO])
-  | .pre t (some r) => GPX.of_gp (fun _ _ _ _ e => nomatch e) (fun _ _ e => nomatch e) (fun h => by
+  | .comment _ _ _ => GPX.of_false (fun _ _ _ _ e => nomatch e) (fun _ _ e => nomatch e) (fun _ _ e => nomatch e) (by simp [fragN])
+  | .mapLit t kvs => GPX.of_gp (fun _ _ _ _ e => nomatch e) (fun _ _ e => nomatch e) (fun _ _ e => nomatch e) (fun h => by
+      simp only [fragN, Bool.and_eq_true, beq_iff_eq] at h
+      obtain ⟨rfl, hk⟩ := h
+      exact gp_map (gp_pairs s c ap kvs hk))
+  | .macroLit t params none => GPX.of_false (fun _ _ _ _ e => nomatch e) (fun _ _ e => nomatch e) (fun _ _ e => nomatch e) (by simp [fragN, fragB])
+  | .macroLit t params (some l) => GPX.of_gp (fun _ _ _ _ e => nomatch e) (fun _ _ e => nomatch e) (fun _ _ e => nomatch e) (fun h => by
+      simp only [fragN, fragB, Bool.and_eq_true, beq_iff_eq] at h
+      exact gp_macro h.1.1 h.1.2 h.2 (gp_stmts s c ap l true true h.2))
+  | .ret t none => ⟨fun h => by simp [fragN] at h, nofun, nofun, nofun⟩
+  | .ret t (some v) => ⟨fun h => by simp [fragN] at h, nofun, fun t' v' e hv => (by
+      cases e; exact (gpx_node s c ap v).1 hv), nofun⟩
+  | .pre t none => GPX.of_false (fun _ _ _ _ e => nomatch e) (fun _ _ e => nomatch e) (fun _ _ e => nomatch e) (by simp [fragN, fragO])
+  | .pre t (some r) => GPX.of_gp (fun _ _ _ _ e => nomatch e) (fun _ _ e => nomatch e) (fun _ _ e => nomatch e) (fun h => by
       simp only [fragN, fragO, Bool.and_eq_true] at h
       exact gp_pre ((gpx_node s c ap r).1 h.2) h.1)
-  | .infix t none r => GPX.of_false (fun _ _ _ _ e => nomatch e) (fun _ _ e => nomatch e) (by cases r <;> simp [fragN, fragO])
-  | .infix t (some l) none => GPX.of_false (fun _ _ _ _ e => nomatch e) (fun _ _ e => nomatch e) (by simp [fragN, fragO])
-  | .infix t (some l) (some r) => GPX.of_gp (fun _ _ _ _ e => nomatch e) (fun _ _ e => nomatch e) (fun h => by
+  | .infix t none r => GPX.of_false (fun _ _ _ _ e => nomatch e) (fun _ _ e => nomatch e) (fun _ _ e => nomatch e) (by cases r <;> simp [fragN, fragO])
+  | .infix t (some l) none => ⟨fun h => by simp [fragN, fragO] at h, nofun, nofun, fun tc lc e hf => by
+      cases e; exact (gpx_node s c ap l).1 hf⟩
+  | .infix t (some l) (some r) => GPX.of_gp (fun _ _ _ _ e => nomatch e) (fun _ _ e => nomatch e) (fun _ _ e => nomatch e) (fun h => by
       simp only [fragN, fragO, Bool.and_eq_true, Bool.not_eq_true'] at h
       exact gp_infix ((gpx_node s c ap l).1 h.1.2) ((gpx_node s c ap r).1 h.2.2) h.1.2 h.2.2 h.1.1 h.2.1)
-  | .call t none args => GPX.of_false (fun _ _ _ _ e => nomatch e) (fun _ _ e => nomatch e) (by simp [fragN, fragO])
-  | .call t (some f) args => GPX.of_gp (fun _ _ _ _ e => nomatch e) (fun _ _ e => nomatch e) (fun h => by
+  | .call t none args => GPX.of_false (fun _ _ _ _ e => nomatch e) (fun _ _ e => nomatch e) (fun _ _ e => nomatch e) (by simp [fragN, fragO])
+  | .call t (some f) args => GPX.of_gp (fun _ _ _ _ e => nomatch e) (fun _ _ e => nomatch e) (fun _ _ e => nomatch e) (fun h => by
       simp only [fragN, fragO, Bool.and_eq_true, beq_iff_eq] at h
       obtain ⟨⟨rfl, hf⟩, ha⟩ := h
       exact gp_call ((gpx_node s c ap f).1 hf) hf (gp_list s c ap args ha))
-  | .array t es => GPX.of_gp (fun _ _ _ _ e => nomatch e) (fun _ _ e => nomatch e) (fun h => by
+  | .array t es => GPX.of_gp (fun _ _ _ _ e => nomatch e) (fun _ _ e => nomatch e) (fun _ _ e => nomatch e) (fun h => by
       simp only [fragN, Bool.and_eq_true, beq_iff_eq] at h
       obtain ⟨rfl, ha⟩ := h
       exact gp_array (gp_list s c ap es ha))
-  | .builtin t ps => GPX.of_gp (fun _ _ _ _ e => nomatch e) (fun _ _ e => nomatch e) (fun h => by
+  | .builtin t ps => GPX.of_gp (fun _ _ _ _ e => nomatch e) (fun _ _ e => nomatch e) (fun _ _ e => nomatch e) (fun h => by
       simp only [fragN, Bool.and_eq_true] at h
       exact gp_builtin h.1 (gp_list s c ap ps h.2))
-  | .index t none i => GPX.of_false (fun _ _ _ _ e => nomatch e) (fun _ _ e => nomatch e) (by simp [fragN, fragO])
-  | .index t (some l) none => GPX.of_false (fun _ _ _ _ e => nomatch e) (fun _ _ e => nomatch e) (by simp [fragN, fragO])
-  | .index t (some l) (some i) => GPX.of_gp (fun _ _ _ _ e => nomatch e) (fun _ _ e => nomatch e) (fun h => by
-      simp only [fragN, fragO, Bool.and_eq_true, Bool.or_eq_true, beq_iff_eq] at h
-      rcases h.1.1 with ht | ht
-      · exact gp_index_br ht ((gpx_node s c ap l).1 h.1.2) ((gpx_node s c ap i).1 h.2) h.1.2
-      · exact gp_index_dot ht ((gpx_node s c ap l).1 h.1.2) ((gpx_node s c ap i).1 h.2) h.1.2 h.2)
-  | .func t name params none v isL => GPX.of_false (fun _ _ _ _ e => nomatch e) (fun _ _ e => nomatch e) (by simp [fragN, fragB])
-  | .func t name params (some l) v isL => GPX.of_gp (fun _ _ _ _ e => nomatch e) (fun _ _ e => nomatch e) (fun h => by
-      simp only [fragN, fragB, Bool.and_eq_true, Bool.not_eq_true', beq_iff_eq] at h
-      obtain ⟨⟨⟨⟨rfl, ht⟩, hname⟩, hpar⟩, hl⟩ := h
+  | .index t none i => GPX.of_false (fun _ _ _ _ e => nomatch e) (fun _ _ e => nomatch e) (fun _ _ e => nomatch e) (by simp [fragN, fragO])
+  | .index t (some l) none => GPX.of_false (fun _ _ _ _ e => nomatch e) (fun _ _ e => nomatch e) (fun _ _ e => nomatch e) (by
+      simp only [fragN, fragO, fragIdx]; split <;> simp)
+  | .index t (some l) (some i) =>
+    have hl := gpx_node s c ap l
+    have hi := gpx_node s c ap i
+    GPX.of_gp (fun _ _ _ _ e => nomatch e) (fun _ _ e => nomatch e) (fun _ _ e => nomatch e) (fun h => by
+      simp only [fragN, fragO, Bool.and_eq_true] at h
+      by_cases hb : t.type = .LBRACKET
+      · have hb' : (t.type == TokType.LBRACKET) = true := by simpa using hb
+        rw [hb', if_pos rfl] at h
+        rcases fragIdx_elim h.2 with ⟨tc, lc, rfl, htc, hlc⟩ | hfi
+        · exact gp_index_br hb (hl.1 h.1) (ipb_open (hi.2.2.2 tc lc rfl hlc) hlc htc) h.1
+        · exact gp_index_br hb (hl.1 h.1) (ipb_of_gp (hi.1 hfi)) h.1
+      · have hb' : (t.type == TokType.LBRACKET) = false := by simpa using hb
+        rw [hb'] at h
+        simp only [Bool.false_eq_true, if_false, Bool.and_eq_true, beq_iff_eq, fragO] at h
+        exact gp_index_dot h.2.1.1 (hl.1 h.1) (hi.1 h.2.2) h.1 h.2.2)
+  | .func t name params none v isL => GPX.of_false (fun _ _ _ _ e => nomatch e) (fun _ _ e => nomatch e) (fun _ _ e => nomatch e) (by
+      cases isL <;> simp [fragN, fragB])
+  | .func t name params (some l) v false => GPX.of_gp (fun _ _ _ _ e => nomatch e) (fun _ _ e => nomatch e) (fun _ _ e => nomatch e) (fun h => by
+      simp only [fragN, fragB, Bool.false_eq_true, if_false, Bool.and_eq_true, beq_iff_eq] at h
+      obtain ⟨⟨⟨ht, hname⟩, hpar⟩, hl⟩ := h
       refine gp_func ht (fun nm e => ?_) hpar hl (gp_stmts s c ap l true true hl)
       subst e; simpa using hname)
-  | .forE t none b => GPX.of_false (fun _ _ _ _ e => nomatch e) (fun _ _ e => nomatch e) (by simp [fragN, fragO])
-  | .forE t (some cnd) none => GPX.of_false (fun _ _ _ _ e => nomatch e) (fun _ _ e => nomatch e) (by simp [fragN, fragB])
-  | .forE t (some cnd) (some l) => GPX.of_gp (fun _ _ _ _ e => nomatch e) (fun _ _ e => nomatch e) (fun h => by
+  | .func t name params (some l) v true => GPX.of_gp (fun _ _ _ _ e => nomatch e) (fun _ _ e => nomatch e) (fun _ _ e => nomatch e) (fun h => by
+      simp only [fragN, fragB, if_true, Bool.and_eq_true, beq_iff_eq, Option.isNone_iff_eq_none] at h
+      obtain ⟨⟨⟨rfl, rfl⟩, hpar⟩, hl⟩ := h
+      exact gp_lambda hpar hl (gp_stmts s c ap l true true hl))
+  | .forE t none b => GPX.of_false (fun _ _ _ _ e => nomatch e) (fun _ _ e => nomatch e) (fun _ _ e => nomatch e) (by simp [fragN, fragO])
+  | .forE t (some cnd) none => GPX.of_false (fun _ _ _ _ e => nomatch e) (fun _ _ e => nomatch e) (fun _ _ e => nomatch e) (by simp [fragN, fragB])
+  | .forE t (some cnd) (some l) => GPX.of_gp (fun _ _ _ _ e => nomatch e) (fun _ _ e => nomatch e) (fun _ _ e => nomatch e) (fun h => by
       simp only [fragN, fragO, fragB, Bool.and_eq_true, beq_iff_eq] at h
       obtain ⟨⟨rfl, hc⟩, hl⟩ := h
       exact gp_for ((gpx_node s c ap cnd).1 hc) hc hl (gp_stmts s c ap l true true hl))
   | .ifE t none cons alt =>
-    GPX.of_false' (fun _ _ e => nomatch e) (by simp [fragN, fragO])
+    GPX.of_false' (fun _ _ e => nomatch e) (fun _ _ e => nomatch e) (by simp [fragN, fragO])
   | .ifE t (some cnd) none alt =>
-    GPX.of_false' (fun _ _ e => nomatch e) (by simp [fragN, fragB])
+    GPX.of_false' (fun _ _ e => nomatch e) (fun _ _ e => nomatch e) (by simp [fragN, fragB])
   | .ifE t (some cnd) (some l) none =>
     have hi : fragN c ap (.ifE t (some cnd) (some l) none) = true → IFP s c ap (.ifE t (some cnd) (some l) none) := fun h => by
       simp only [fragN, fragO, fragB, fragAlt, Bool.and_eq_true, beq_iff_eq, and_true] at h
       obtain ⟨⟨rfl, hc⟩, hl⟩ := h
       exact ifp_none ((gpx_node s c ap cnd).1 hc) hc hl (gp_stmts s c ap l true true hl)
-    ⟨fun h => gp_if_of_ifp (hi h), fun _ _ _ _ _ h => hi h, nofun⟩
+    ⟨fun h => gp_if_of_ifp (hi h), fun _ _ _ _ _ h => hi h, nofun, nofun⟩
   | .ifE t (some cnd) (some l) (some []) =>
     have hi : fragN c ap (.ifE t (some cnd) (some l) (some [])) = true → IFP s c ap (.ifE t (some cnd) (some l) (some [])) := fun h => by
       simp only [fragN, fragO, fragB, fragAlt, Bool.and_eq_true, beq_iff_eq] at h
       obtain ⟨⟨⟨rfl, hc⟩, hl⟩, hl2⟩ := h
       exact ifp_block ((gpx_node s c ap cnd).1 hc) hc hl (gp_stmts s c ap l true true hl) hl2 (fun x hx => by simp at hx)
         (fun q => altToks_block q [] (fun a e => by cases e))
-    ⟨fun h => gp_if_of_ifp (hi h), fun _ _ _ _ _ h => hi h, nofun⟩
+    ⟨fun h => gp_if_of_ifp (hi h), fun _ _ _ _ _ h => hi h, nofun, nofun⟩
   | .ifE t (some cnd) (some l) (some (none :: r)) =>
-    GPX.of_false' (fun _ _ e => nomatch e) (by cases r <;> simp [fragN, fragAlt, fragS])
+    GPX.of_false' (fun _ _ e => nomatch e) (fun _ _ e => nomatch e) (by cases r <;> simp [fragN, fragAlt, fragS])
   | .ifE t (some cnd) (some l) (some [some a]) =>
     have hi : fragN c ap (.ifE t (some cnd) (some l) (some [some a])) = true → IFP s c ap (.ifE t (some cnd) (some l) (some [some a])) := fun h => by
       simp only [fragN, fragO, fragB, fragAlt, Bool.and_eq_true, beq_iff_eq] at h
@@ -668,7 +1100,7 @@ theorem gpx_node (s : TokStream) (c ap : Bool) : ∀ (t : Node), GPX s c ap t
             simp only [List.mem_singleton] at hx
             exact ⟨a, hx, stmtP_of_gpx (gpx_node s c ap a) hl2'.1⟩)
           (fun q => altToks_block q [some a] (fun a' e => by cases e; exact hif))
-    ⟨fun h => gp_if_of_ifp (hi h), fun _ _ _ _ _ h => hi h, nofun⟩
+    ⟨fun h => gp_if_of_ifp (hi h), fun _ _ _ _ _ h => hi h, nofun, nofun⟩
   | .ifE t (some cnd) (some l) (some (some a :: b :: r)) =>
     have hi : fragN c ap (.ifE t (some cnd) (some l) (some (some a :: b :: r))) = true →
         IFP s c ap (.ifE t (some cnd) (some l) (some (some a :: b :: r))) := fun h => by
@@ -676,7 +1108,7 @@ theorem gpx_node (s : TokStream) (c ap : Bool) : ∀ (t : Node), GPX s c ap t
       obtain ⟨⟨⟨rfl, hc⟩, hl⟩, hl2⟩ := h
       exact ifp_block ((gpx_node s c ap cnd).1 hc) hc hl (gp_stmts s c ap l true true hl) hl2
         (gp_stmts s c ap (some a :: b :: r) true true hl2) (fun q => altToks_block q _ (fun a' e => by cases e))
-    ⟨fun h => gp_if_of_ifp (hi h), fun _ _ _ _ _ h => hi h, nofun⟩
+    ⟨fun h => gp_if_of_ifp (hi h), fun _ _ _ _ _ h => hi h, nofun, nofun⟩
 theorem gp_list (s : TokStream) (c ap : Bool) : ∀ (xs : NList), fragL c ap xs = true → GPL s c ap xs
   | [], _ => fun x hx => by simp at hx
   | none :: xs, h => by simp [fragL, fragO] at h
@@ -686,6 +1118,14 @@ theorem gp_list (s : TokStream) (c ap : Bool) : ∀ (xs : NList), fragL c ap xs 
     rcases List.mem_cons.mp hx with rfl | hx
     · exact ⟨n, rfl, h.1, (gpx_node s c ap n).1 h.1⟩
     · exact gp_list s c ap xs h.2 x hx
+theorem gp_pairs (s : TokStream) (c ap : Bool) : ∀ (kvs : NList), fragPairs c ap kvs = true → MPL s c ap kvs
+  | [], _ => trivial
+  | [_], h => by simp [fragPairs] at h
+  | none :: _ :: _, h => by simp [fragPairs, fragO] at h
+  | some _ :: none :: _, h => by simp [fragPairs, fragO] at h
+  | some k :: some v :: rest, h => by
+    simp only [fragPairs, fragO, Bool.and_eq_true] at h
+    exact ⟨h.1.1, h.1.2, (gpx_node s c ap k).1 h.1.1, (gpx_node s c ap v).1 h.1.2, gp_pairs s c ap rest h.2⟩
 theorem gp_stmts (s : TokStream) (c ap : Bool) : ∀ (l : NList) (ib first : Bool), fragS c ap ib first l = true → SPL s c ap l
   | [], _, _, _ => fun x hx => by simp at hx
   | none :: _, _, _, h => by simp [fragS] at h
